@@ -36,6 +36,8 @@ var targets = map[string][]string{
 	"lib/server/ipdb/clients": {"NewClients", "Clients.Lookup", "Clients.InjectPermanent", "Clients.Inject", "Clients.injectInternal",
 		"Clients.SetLease", "Clients.Expire", "client.Uip", "client.LeasedUntil"},
 	"lib/arpping":         {"catchARPReply", "Ping"},
+	"lib/client/callback": {"dumpScriptConf", "envEntry"},
+	"lib/resolvconf":      {"Run"},
 	"lib/client/dclient": {"catchReply", "dclient.Run", "dclient.ResumeClient", "dclient.buildNetconfig", "dclient.runStateDiscovering", "dclient.runStateSelecting",
 		"dclient.runStateBound", "dclient.runStateRenewing", "dclient.runStateRebinding", "dclient.runStatePurgeInterface", "dclient.runStateIfconfig",
 		"dclient.runStateArpCheck", "dclient.panicReset"},
